@@ -14,6 +14,7 @@ import traceback
 from .report import Violation
 
 NWORKERS = int(os.environ.get('VERIF_WORKERS', '0')) or min(16, os.cpu_count() or 1)
+WORKER_MEM_GB = int(os.environ.get('VERIF_WORKER_MEM_GB', '3'))     # address-space limit of one forked worker
 CASE_TIMEOUT = int(os.environ.get('VERIF_CASE_TIMEOUT', '90'))     # seconds; ordinary cases take milliseconds (real-process cases: seconds)
 STOP_AFTER_VIOLATIONS = 60      # per worker: a tree this broken needs no further exploration
 _ctx = multiprocessing.get_context('fork')
@@ -113,6 +114,13 @@ def _fork_map(fn, nshards):
 
         def body(r=r, child=child):
             try:
+                # a runaway case (a list that doubles on every step) must end as MemoryError inside the code that
+                # allocates, not as the machine's out-of-memory killer taking the worker away
+                import resource
+                soft, hard = resource.getrlimit(resource.RLIMIT_AS)
+                want = WORKER_MEM_GB << 30
+                if hard == resource.RLIM_INFINITY or want <= hard:
+                    resource.setrlimit(resource.RLIMIT_AS, (want, hard))
                 child.send(('ok', fn(r)))
             except BaseException:
                 child.send(('err', traceback.format_exc()))
@@ -230,13 +238,27 @@ def bfs(expand, depth, workers=None, seed=0, merge=True, bound=None, max_states=
 
         def shard(rank):
             out = []
+            t_start = time.time()
+            nviol = 0
             for i in range(rank, len(fr), nshards):
                 hist = fr[i]
                 try:
-                    children = timed(expand, hist, CASE_TIMEOUT * 4)
+                    children = timed(expand, hist, CASE_TIMEOUT * 2)
                 except CaseTimeout:
                     children = [(['<expansion>'], None, Eval([Violation('timeout', {'history': [list(x) for x in hist]},
-                                                                       {'seconds': CASE_TIMEOUT * 4})]))]
+                                                                       {'seconds': CASE_TIMEOUT * 2})]))]
+                    for (ev, key, e) in children:
+                        out.append((i, ev, key, [(v.kind, v.case, v.detail) for v in e.viols], None, False, 1, 0))
+                    out.append('stopped')      # one expansion that does not come back: the rest of this shard is not tried
+                    break
+                nviol += sum(len(e.viols) for (_, _, e) in children)
+                if nviol >= STOP_AFTER_VIOLATIONS or (nviol and time.time() - t_start > 45):
+                    for (ev, key, e) in children:
+                        out.append((i, ev, key, e.viols and [(v.kind, v.case, v.detail) for v in e.viols],
+                                    h64(e.outcome) if e.outcome is not None else None,
+                                    e.nontrivial, e.transitions, e.validated))
+                    out.append('stopped')
+                    break
                 for (ev, key, e) in children:
                     out.append((i, ev, key, e.viols and [(v.kind, v.case, v.detail) for v in e.viols],
                                 h64(e.outcome) if e.outcome is not None else None,
@@ -244,7 +266,8 @@ def bfs(expand, depth, workers=None, seed=0, merge=True, bound=None, max_states=
             return out
 
         outs = _fork_map(shard, nshards)
-        children = sorted((c for o in outs for c in o), key=lambda c: (c[0], json.dumps(c[1], default=repr)))
+        stopped = any(c == 'stopped' for o in outs for c in o)
+        children = sorted((c for o in outs for c in o if c != 'stopped'), key=lambda c: (c[0], json.dumps(c[1], default=repr)))
         nxt = []
         for (i, ev, key, viols, oh, nt, tr, va) in children:
             res.transitions += 1
@@ -269,6 +292,9 @@ def bfs(expand, depth, workers=None, seed=0, merge=True, bound=None, max_states=
         if nxt:
             samples.append(list(nxt[(seed * 31 + d) % len(nxt)]))
         frontier = nxt
+        if stopped:
+            res.exhaustive = False     # violations (or cases that do not come back) piled up: reported, search ended early
+            break
         completed = d + 1
         if max_states is not None and res.states > max_states and d + 1 < depth:
             res.exhaustive = False
